@@ -109,3 +109,41 @@ Fixpoint no_comp (e : expr) {struct e} : bool :=
   end.
 Definition shorthands_plain (f : file) : bool :=
   forallb (fun sh => forallb (fun a => match a with Attr _ e => no_comp e end) (sh_attrs sh)) (f_shorthands f).
+
+(* ---- a NAME-based purity declaration that coincides with the bits (used to link the flow-insensitive fragment of
+   the strict/lazy theorem, Proofs/SL2*.v, to the checker): `purev x` is true for every global, `node`, loop and
+   comprehension variable, false for every `var` (and every `set` target), and equal to `eager_ok e` at every
+   `let x = e`.  A file passes when it uses every name consistently. ---- *)
+Fixpoint pv_expr (purev : ident -> bool) (e : expr) {struct e} : bool :=
+  match e with
+  | EList es | ESet es | ECall _ es => forallb (pv_expr purev) es
+  | EListComp el x _ v _ | ESetComp el x _ v _ => purev x && pv_expr purev el && pv_expr purev v
+  | EScoped sc _ _ => pv_expr purev sc
+  | _ => true
+  end.
+Definition pv_attr (purev : ident -> bool) (a : attr) : bool := match a with Attr _ e => pv_expr purev e end.
+Fixpoint pv_stmt (purev : ident -> bool) (G : ident -> bool) (env : lenv) (s : stmt) {struct s} : bool :=
+  match s with
+  | SLet v e _ =>
+      pv_expr purev e && match v with VarU x _ => Bool.eqb (purev x) (eager_ok G env e) | VarS sc _ _ => pv_expr purev sc end
+  | SVar v e _ | SSet v e _ =>
+      pv_expr purev e && match v with VarU x _ => negb (purev x) | VarS sc _ _ => pv_expr purev sc end
+  | SNode v _ _ => match v with VarU x _ => purev x | VarS sc _ _ => pv_expr purev sc end
+  | SAttrNode n attrs _ => pv_expr purev n && forallb (pv_attr purev) attrs
+  | SEdge a b _ => pv_expr purev a && pv_expr purev b
+  | SAttrEdge a b attrs _ => pv_expr purev a && pv_expr purev b && forallb (pv_attr purev) attrs
+  | SScan v arms _ =>
+      pv_expr purev v &&
+      forallb (fun arm : N * list stmt * loc =>
+                 let '(_, body, _) := arm in seq_eok (pv_stmt purev G) (stmt_env G) ([] :: env) body) arms
+  | SPrint vs _ => forallb (pv_expr purev) vs
+  | SIf arms _ =>
+      forallb (fun arm : list cond * list stmt * loc =>
+                 let '(conds, body, _) := arm in
+                 forallb (fun c => pv_expr purev (cond_expr c)) conds &&
+                 seq_eok (pv_stmt purev G) (stmt_env G) ([] :: env) body) arms
+  | SFor x _ v body _ => purev x && pv_expr purev v && seq_eok (pv_stmt purev G) (stmt_env G) ([(x, true)] :: env) body
+  end.
+Definition pv_file (purev : ident -> bool) (f : file) : bool :=
+  forallb (fun g => purev (gl_name g)) (f_globals f) &&
+  forallb (fun st => seq_eok (pv_stmt purev (is_global f)) (stmt_env (is_global f)) [[]] (st_stmts st)) (f_stanzas f).
